@@ -54,9 +54,12 @@ def main():
     rc, out = sh(demo_cmd, cwd=WT); good &= step("demo-with-change", rc, out, False)
     if not skip_suite:
         os.remove(demo_dst)
-        rc, out = sh("cargo nextest run --workspace --no-fail-fast --test-threads 8 --offline", cwd=WT)
-        if rc != 0:  # example-based tests are flaky under load: retry the failures once
-            rc, out2 = sh("cargo nextest run --workspace --no-fail-fast --test-threads 4 --offline", cwd=WT)
+        # a private network namespace: the example-based tests use fixed ports
+        # (12230-12232) and collide with other jobs running the same suite
+        suite = "unshare -n sh -c 'ip link set lo up && cargo nextest run --workspace --no-fail-fast --test-threads 8 --offline'"
+        rc, out = sh(suite, cwd=WT)
+        if rc != 0:
+            rc, out2 = sh(suite.replace("--test-threads 8", "--test-threads 4 --retries 2"), cwd=WT)
             out += "\n--- retry ---\n" + out2
         good &= step("existing-suite-with-change", rc, out, True)
     res["confirmed"] = bool(good)
